@@ -7,6 +7,7 @@ From Coq Require Import NArith List Bool.
 Import ListNotations.
 Require Import PV.Scopes.Syntax PV.Scopes.Analysis PV.Scopes.Paths PV.Scopes.Guards.
 Require Import PV.Proofs.ScopesMaps PV.Proofs.ScopesSound PV.Proofs.ScopesUpper PV.Proofs.ScopesWitness.
+Require Import PV.Scopes.Sop PV.Scopes.Shapes PV.Gen.Scopes.
 Open Scope N_scope.
 
 (* The lower bound at full strength: every definition (or the unbound state) that reaches a
@@ -85,14 +86,69 @@ Theorem C09_strict_sub_liberal : forall p u d, strict_reach p u d -> liberal_rea
 Proof. exact strict_sub_liberal. Qed.
 Print Assumptions C09_strict_sub_liberal.
 
-(* the intended statement (guard upper_ok); proved so far for stage 1 only, decided by the
-   differential check for the rest (loops, with, try/except) *)
-Definition C09_reported_sub_liberal_upper_ok_statement : Prop :=
-  forall p u d, upper_ok p = true -> In d (reported p u) -> liberal_reach p u d.
+(* the upper bound at full strength is refuted by the faithful model (precision only; replayed
+   on the real code: known finding C09-imprecise-reaching) *)
+Definition C09_reported_sub_liberal_full_statement : Prop :=
+  forall p u d, In d (reported p u) -> liberal_reach p u d.
 
-(* stage 1: every program built from assignments, uses, calls, pass, return, raise and if/else
-   without dead code (upper1_ok = upper_ok && flat_b) *)
+Theorem C09_reported_sub_liberal_refuted :
+  upper_ok w_upper = false /\ In 2 (reported w_upper 7) /\ ~ liberal_reach w_upper 7 2.
+Proof. exact w_upper_facts. Qed.
+Print Assumptions C09_reported_sub_liberal_refuted.
+
+(* For every function body of the grammar that satisfies upper_ok (no break/continue, no loop
+   else clause, no `while True`, no try-finally, no dead code, try bodies not empty) -- any
+   nesting of assignments, uses, calls, return, raise, if/else, while/for, suppressing and
+   non-suppressing with, try/except/else -- every reported definition (and the unbound state)
+   reaches the use along a liberal path. *)
 Theorem C09_reported_sub_liberal_partial : forall p u d,
-  upper1_ok p = true -> In d (reported p u) -> liberal_reach p u d.
-Proof. exact reported_sub_liberal_flat. Qed.
+  upper_ok p = true -> In d (reported p u) -> liberal_reach p u d.
+Proof. exact reported_sub_liberal. Qed.
 Print Assumptions C09_reported_sub_liberal_partial.
+
+(* ... hence a name bound on every liberal path is not reported as possibly undefined *)
+Theorem C09_bound_name_not_possibly_undefined_partial : forall p u,
+  upper_ok p = true -> (forall d, liberal_reach p u d -> d <> UN) -> possibly_undefined p u = false.
+Proof. exact bound_is_not_possibly. Qed.
+Print Assumptions C09_bound_name_not_possibly_undefined_partial.
+
+(* the upper guard is satisfiable together with the lower one by a non-trivial program
+   (if + loop + try/except inside a suppressing with would violate nothing): w_ok has a loop else *)
+Example C09_upper_guard_inhabited :
+  upper_ok w_up_ok = true /\ lower_ok w_up_ok = true /\ reported w_up_ok 9 = [2; 3; 1; 0].
+Proof. exact w_up_ok_facts. Qed.
+Print Assumptions C09_upper_guard_inhabited.
+
+(* ---- the source still has the shape the model was written for.  PV.Gen.Scopes is regenerated
+   on every run from stacked_scopes.py (FunctionScope.subscope, loop_scope, get_combined_scope,
+   combine_subscopes, suppressing_subscope, set, get_local) and name_check_visitor.py (visit_If,
+   visit_While, visit_For, _handle_loop_else, visit_try_except, visit_Try, visit_With,
+   visit_single_cm, visit_Break/Continue/Return/Raise): the scope program of each function
+   (see harness/translate/scopes.py) must equal the one recorded in Scopes/Shapes.v. *)
+Theorem C09_source_scope_operations_unchanged :
+  gen_scope_subscope = exp_scope_subscope /\ gen_scope_loop_scope = exp_scope_loop_scope /\
+  gen_scope_get_combined_scope = exp_scope_get_combined_scope /\
+  gen_scope_combine_subscopes = exp_scope_combine_subscopes /\
+  gen_scope_suppressing_subscope = exp_scope_suppressing_subscope /\
+  gen_scope_set = exp_scope_set /\ gen_scope_get_local = exp_scope_get_local.
+Proof.
+  exact (conj gen_scope_subscope_is_expected (conj gen_scope_loop_scope_is_expected
+    (conj gen_scope_get_combined_scope_is_expected (conj gen_scope_combine_subscopes_is_expected
+    (conj gen_scope_suppressing_subscope_is_expected (conj gen_scope_set_is_expected gen_scope_get_local_is_expected)))))).
+Qed.
+Print Assumptions C09_source_scope_operations_unchanged.
+
+Theorem C09_source_visitors_unchanged :
+  gen_visit_If = exp_visit_If /\ gen_visit_While = exp_visit_While /\ gen_visit_For = exp_visit_For /\
+  gen_visit_handle_loop_else = exp_visit_handle_loop_else /\
+  gen_visit_try_except = exp_visit_try_except /\ gen_visit_Try = exp_visit_Try /\
+  gen_visit_With = exp_visit_With /\ gen_visit_single_cm = exp_visit_single_cm /\
+  gen_visit_Break = exp_visit_Break /\ gen_visit_Continue = exp_visit_Continue /\
+  gen_visit_Return = exp_visit_Return /\ gen_visit_Raise = exp_visit_Raise.
+Proof.
+  exact (conj gen_visit_If_is_expected (conj gen_visit_While_is_expected (conj gen_visit_For_is_expected
+    (conj gen_visit_handle_loop_else_is_expected (conj gen_visit_try_except_is_expected (conj gen_visit_Try_is_expected
+    (conj gen_visit_With_is_expected (conj gen_visit_single_cm_is_expected (conj gen_visit_Break_is_expected
+    (conj gen_visit_Continue_is_expected (conj gen_visit_Return_is_expected gen_visit_Raise_is_expected))))))))))).
+Qed.
+Print Assumptions C09_source_visitors_unchanged.
